@@ -9,6 +9,7 @@ use crate::linear::{self, LinOp};
 use crate::ops::guarded;
 use crate::subject::{GenType, Registry};
 use rayon::prelude::*;
+use refmodels::gf2::Mat;
 use refmodels::gf2::BitVec;
 use serde_json::json;
 
@@ -189,6 +190,86 @@ pub fn run(reg: &dyn Registry, ctx: &Ctx) -> Outcome {
                             json!({"kind":"jump-witness","type":info.name,"op":op.name(),"state":hex(&s.to_bytes()),"expected_state":hex(&pred.to_bytes())}),
                         );
                         break;
+                    }
+                }
+            }
+        }
+
+        // states directed at the *running state* inside a jump: the loop steps the generator n times, so
+        // after i steps it holds T^i s; states are chosen (s = T^-i target, by repeated application of the
+        // inverse step matrix) so that this running state has a zero word / a single non-zero word / all
+        // words equal at every i = 1..n-1
+        if model_ok && bound {
+            let w = info.word_bits;
+            let k = n / w;
+            // inverse of the step matrix, column by column
+            let tinv: Option<Mat> = {
+                let cols: Vec<Option<BitVec>> = (0..n).into_par_iter().map(|i| t.ex.mat.solve(&BitVec::unit(n, i))).collect();
+                if cols.iter().all(|c| c.is_some()) {
+                    Some(Mat { rows: n, cols: n, col: cols.into_iter().map(|c| c.unwrap()).collect() })
+                } else {
+                    None
+                }
+            };
+            if let Some(tinv) = tinv {
+                let dense = bits(&alphabet::bg_bytes(ctx.seed, 0x06D0, len));
+                let mut targets: Vec<BitVec> = Vec::new();
+                for word in 0..k {
+                    let mut zero_word = dense.clone();
+                    let mut only_word = BitVec::zero(n);
+                    for b in 0..w {
+                        zero_word.set(word * w + b, false);
+                        only_word.set(word * w + b, dense.get(word * w + b));
+                    }
+                    targets.push(zero_word);
+                    targets.push(only_word);
+                }
+                let mut equal = BitVec::zero(n);
+                for word in 0..k {
+                    for b in 0..w {
+                        equal.set(word * w + b, dense.get(b));
+                    }
+                }
+                targets.push(equal);
+                let starts: Vec<(usize, BitVec)> = targets
+                    .par_iter()
+                    .flat_map(|tg| {
+                        let mut v = Vec::with_capacity(n);
+                        let mut s = tg.clone();
+                        for i in 1..n {
+                            s = tinv.apply(&s);
+                            v.push((i, s.clone()));
+                        }
+                        v
+                    })
+                    .collect();
+                ctx.add("running_state_directed_states", starts.len() as u64);
+                for (op, kk, want) in [(LinOp::Jump, n / 2, &tj), (LinOp::LongJump, 3 * n / 4, &tl)] {
+                    let bad: Option<(usize, BitVec, Result<bool, String>)> = starts
+                        .par_iter()
+                        .filter_map(|(i, s)| {
+                            let pred = want.apply(s);
+                            let r = (|| -> Result<bool, String> {
+                                let mut g = linear::make_state(*ty, s)?;
+                                linear::apply_op(&mut g, op, info.word_bits)?;
+                                let e = linear::make_state(*ty, &pred)?;
+                                Ok(g.eq_dyn(e.as_ref()) == Some(true))
+                            })();
+                            if r == Ok(true) {
+                                None
+                            } else {
+                                Some((*i, s.clone(), r))
+                            }
+                        })
+                        .min_by_key(|x| x.0);
+                    ctx.add("transitions", starts.len() as u64);
+                    if let Some((i, s, r)) = bad {
+                        let pred = want.apply(&s);
+                        ctx.violation(
+                            &format!("C06:{}:{}-running-state", info.name, op.name()),
+                            &format!("{}: {}() from state {} (whose image after {} steps has a special word pattern) does not reach the state 2^{} steps ahead, {} ({:?})", info.name, op.name(), hex(&s.to_bytes()), i, kk, hex(&pred.to_bytes()), r),
+                            json!({"kind":"jump-witness","type":info.name,"op":op.name(),"state":hex(&s.to_bytes()),"expected_state":hex(&pred.to_bytes())}),
+                        );
                     }
                 }
             }
